@@ -23,7 +23,7 @@ CONSTANTS TolLayout      \* relative tolerance where a reduction order may legit
 
 Trace == JsonDeserialize(IOEnv.TRACE_FILE)
 VARIABLE l
-tvars == <<l, tabs, counter, theta, dlog, hist, heap, res>>
+tvars == <<l, tabs, counter, theta, dlog, hist, kern, heap, res>>
 
 F(name, ok) == IF ok THEN {} ELSE {name}
 ToSet(q) == {q[j] : j \in 1..Len(q)}
@@ -100,7 +100,7 @@ Failed(r) ==
 
 \* ---- the machine follows what was observed (so that one bad record does not condemn the rest of its history)
 TInit == /\ l = 0 /\ tabs = S0.tabs /\ counter = 0 /\ theta = {} /\ hist = <<>>
-         /\ dlog = S0.dlog /\ heap = <<>> /\ res = NoRes
+         /\ dlog = S0.dlog /\ heap = <<>> /\ res = NoRes /\ kern = [k \in 1..5 |-> NoGrid]
 TNext ==
     /\ l < Len(Trace)
     /\ l' = l + 1
@@ -118,7 +118,7 @@ TNext ==
                           [len |-> r.dlen,
                            owner |-> IF e[1] = "model" THEN "m1" ELSE IF e[1] = "none" THEN P.dlog.owner ELSE "none",
                            names |-> "raw", by |-> r.base]
-    /\ UNCHANGED <<hist, heap, res>>
+    /\ UNCHANGED <<hist, kern, heap, res>>
 TSpec == TInit /\ [][TNext]_tvars
 Done == (l = Len(Trace)) => PrintT(<<"DONE", l>>)
 AllConsumed == TLCGet("stats").diameter - 1 = Len(Trace)
